@@ -78,6 +78,7 @@ func vupOps() []vupOp {
 		{"Wb", wr("bbbbbbbb")},
 		{"Vbad", func(u BlobCreator, st *vupState) string { return vupErr(u.Verify(digest.FromString("something else"))) }},
 		{"Vgood", func(u BlobCreator, st *vupState) string { return vupErr(u.Verify(digest.FromBytes(st.written))) }},
+		{"V512", func(u BlobCreator, st *vupState) string { return vupErr(u.Verify(digest.SHA512.FromBytes(st.written))) }},
 		{"Close", closeOp},
 		{"CloseRaw", func(u BlobCreator, st *vupState) string {
 			err := u.Close()
@@ -222,6 +223,15 @@ func TestVerifUpload(t *testing.T) {
 				for ds, want := range state.content {
 					got, err := vupReadAll(repo, digest.Digest(ds))
 					if err != nil {
+						// the object may have ended on the other algorithm (a Verify under sha512 before a Close without verification)
+						if g2, e2 := vupReadAll(repo, digest.SHA512.FromBytes(want)); e2 == nil {
+							if string(g2) != string(want) {
+								flag("C08.completed-blob-differs", fmt.Sprintf("%s/"+pin+" %s: blob differs from the accepted chunks", kind, strings.Join(names, ",")))
+							}
+							continue
+						}
+					}
+					if err != nil {
 						flag("C08.completed-blob-lost", fmt.Sprintf("%s/"+pin+" %s: blob %s published by a successful Close cannot be read: %v", kind, strings.Join(names, ","), ds[:19], err))
 						continue
 					}
@@ -233,8 +243,27 @@ func TestVerifUpload(t *testing.T) {
 				}
 				// for the comparison with the model (lean/Sess): are the bytes the object accepted published now?
 				pub := 0
-				if got, err := vupReadAll(repo, digest.FromBytes(state.written)); err == nil && string(got) == string(state.written) {
-					pub = 1
+				for _, alg := range []digest.Algorithm{digest.SHA256, digest.SHA512} {
+					if got, err := vupReadAll(repo, alg.FromBytes(state.written)); err == nil && string(got) == string(state.written) {
+						pub = 1
+					}
+				}
+				// every blob the repository lists hashes to the digest it is stored under, whatever algorithm the object ended on
+				type lister interface {
+					blobList(locked bool) ([]digest.Digest, error)
+				}
+				if bl, ok := repo.(lister); ok {
+					if ds, err := bl.blobList(false); err == nil {
+						for _, d := range ds {
+							got, err := vupReadAll(repo, d)
+							if err != nil || d.Validate() != nil {
+								continue
+							}
+							if d.Algorithm().FromBytes(got) != d {
+								flag("C01.served-hash", fmt.Sprintf("%s/"+pin+" %s: blob %s holds %d bytes that do not hash to it", kind, strings.Join(names, ","), d.String()[:19], len(got)))
+							}
+						}
+					}
 				}
 				if !state.ended {
 					_ = u.Cancel()
